@@ -124,6 +124,32 @@ structure DState where
   out : List Nat := []
   rbs : List RB := []
   partialRead : Bool := false
+  tarCalls : Nat := 0              -- tar read_header calls made so far in this process
+  rbs2 : Option (List RB) := none  -- read-back of the rewritten archive (none: not modelled)
+
+/-- The entry object the reader returned, as a writer sees it when it is handed on unchanged. -/
+def entryOfRB (r : RB) : Entry :=
+  let ft : FType := if r.ftype = LA.Gen.CodecConsts.AE_IFREG then .reg else if r.ftype = LA.Gen.CodecConsts.AE_IFDIR then .dir
+    else if r.ftype = LA.Gen.CodecConsts.AE_IFLNK then .lnk else if r.ftype = LA.Gen.CodecConsts.AE_IFCHR then .chr
+    else if r.ftype = LA.Gen.CodecConsts.AE_IFBLK then .blk else if r.ftype = LA.Gen.CodecConsts.AE_IFIFO then .fifo
+    else if r.ftype = LA.Gen.CodecConsts.AE_IFSOCK then .sock else .none
+  { path := some r.path, ftype := ft, perm := r.perm % 4096, uid := r.uid, gid := r.gid, size := r.size,
+    mtime := r.mtime.getD 0, uname := r.uname, gname := r.gname, sym := r.sym, hard := r.hard,
+    rdevmajor := r.rdevmajor, rdevminor := r.rdevminor, dev := r.dev, ino := r.ino, nlink := r.nlink }
+
+/-- `rewrite f=g`: the read-back entries written again with the modelled writer `g` and read. -/
+def doRewrite (d : DState) (g : Fmt) (bpb : Nat) (bilb : Int) : DState × String :=
+  let step := fun (acc : List Nat × WState × List Status) (r : RB) =>
+    let (hs, _, bytes, st') := writeEntry g acc.2.1 (entryOfRB r) [r.body]
+    (acc.1 ++ bytes, st', acc.2.2 ++ [hs])
+  let (out, ws, hss) := d.rbs.foldl step ([], {}, [])
+  let (cst, cb) := closeBytes g ws
+  let raw := out ++ cb
+  let total := raw ++ List.replicate (clientPad raw.length bpb bilb) 0
+  let rr := readArchive false total d.tarCalls
+  let hs := if hss.isEmpty then "-" else String.intercalate "," (hss.map Status.str)
+  ({ d with rbs2 := some rr.entries, tarCalls := rr.calls },
+   s!"o=ok h={hs} c={cst.str} len={total.length} hash={hex64 (LA.fnv1a total)} fmt={String.ofList (Nat.toDigits 16 rr.fmt)} n={rr.entries.length} end={rr.endSt.str}")
 
 def obsField (obs k : String) : String := (kv (LA.words obs) k).getD "?"
 
@@ -131,11 +157,14 @@ def doClose (d : DState) (abort : Bool) (obs : String) : DState × String :=
   match d.fmt with
   | none => (d, obs)
   | some f =>
+    -- write filters are not modelled: with a filter the engine only monitors (the oracle engines
+    -- still evaluate the property on what the implementation printed)
+    if d.filter != "none" then ({ d with fmt := none }, obs) else
     let (cst, cb) := if abort then (Status.ok, []) else closeBytes f d.ws
     let raw := d.out ++ cb
     let total := if abort then raw else raw ++ List.replicate (clientPad raw.length d.bpb d.bilb) 0
-    let rr := readArchive abort total
-    let d' := { d with rbs := rr.entries, isOpen := false, partialRead := abort }
+    let rr := readArchive abort total d.tarCalls
+    let d' := { d with rbs := rr.entries, isOpen := false, partialRead := abort, tarCalls := rr.calls }
     let (len, hash, hex) :=
       if d.filter == "none" then
         (toString total.length, hex64 (LA.fnv1a total), if total.length ≤ 1536 then LA.toHex total else "+")
@@ -190,19 +219,33 @@ def stepLine (d : DState) (op obs : String) : DState × String :=
       let (hs, hb, st1) := writeHeader f d.ws e
       if hs = .failed ∨ hs = .fatal then
         let d' := { d with ws := st1, out := d.out ++ hb }
-        (d', s!"h={hs.str} w=0:ok f=- len={if d.bpb = 0 then toString d'.out.length else "-"}")
+        (d', s!"h={hs.str} w=0:ok f=- len={if d.bpb = 0 then (if d.filter == "none" then toString d'.out.length else obsField obs "len") else "-"}")
       else
         let r := chunks.foldl (fun (acc : Nat × List Nat × WState) c =>
           let (b, s') := writeData acc.2.2 c
           (acc.1 + b.length, acc.2.1 ++ b, s')) (0, [], st1)
         let (fb, st3) := if nofinish then ([], r.2.2) else finishEntry r.2.2
         let d' := { d with ws := st3, out := d.out ++ hb ++ r.2.1 ++ fb }
-        (d', s!"h={hs.str} w={r.1}:ok f={if nofinish then "-" else "ok"} len={if d.bpb = 0 then toString d'.out.length else "-"}")
+        (d', s!"h={hs.str} w={r.1}:ok f={if nofinish then "-" else "ok"} len={if d.bpb = 0 then (if d.filter == "none" then toString d'.out.length else obsField obs "len") else "-"}")
   | ["done"] =>
     -- a crashed spec-level case is echoed (the oracle engines report it); for the modelled formats it is a mismatch
     (d, if d.fmt.isNone && obs.startsWith "!" then obs else "done")
   | ["close"] => doClose d false obs
   | ["abort"] => doClose d true obs
+  | "rewrite" :: ws =>
+    match d.fmt, (kv ws "f").bind parseFmt with
+    | some _, some g =>
+      doRewrite d g (((kv ws "bpb").bind String.toNat?).getD 10240) (optInt (kv ws "bilb") (-1))
+    | _, _ => ({ d with rbs2 := none }, obs)
+  | ["rd2", i] =>
+    match d.rbs2 with
+    | none => (d, obs)
+    | some l =>
+      match i.toNat? with
+      | some i => match l[i]? with
+        | some r => (d, showRB r false)
+        | none => (d, "none")
+      | none => (d, "bad-op")
   | ["rd", i] =>
     match d.fmt with
     | none => (d, obs)
